@@ -204,6 +204,7 @@ impl TypePathType {
                     "LinkedList" => parse_quote!(#alloc_crate_path::collections::LinkedList),
                     "Range" => parse_quote!(::core::ops::Range),
                     "RangeInclusive" => parse_quote!(::core::ops::RangeInclusive),
+                    "Duration" => parse_quote!(::core::time::Duration),
                     "NonZeroI8" => parse_quote!(::core::num::NonZeroI8),
                     "NonZeroU8" => parse_quote!(::core::num::NonZeroU8),
                     "NonZeroI16" => parse_quote!(::core::num::NonZeroI16),
